@@ -61,8 +61,11 @@ def plant(fault, level, delta, w, n):
     elif fault == 7:  # missing connection
         add(Inst("bad", cell, {"a": bus}))
     elif fault == 8:  # extra connection
-        if delta > 0:
+        if delta > 0 and w >= 2:
             add(Inst("bad", cell, {"a": bus, "b": g, "zz": g}))
+        elif delta > 0:  # ... on an instance of a module that has no ports at all
+            noports = Mod("NoPorts", sigs=[("q", 1)], insts=[Inst("r", Prim("R", dict(r=3)), {"p": Sig("q"), "n": Sig("q")})])
+            add(Inst("bad", noports, {"zz": g}))
         else:  # ... as a member of an anonymous bundle which the bundle port does not have
             add(Inst("bad", bleaf, {"b": Anon((("x", Sig("k")), ("y", g), ("zz", g))), "g": g}))
     elif fault == 9:  # reference to a missing port
